@@ -129,6 +129,7 @@ type Options struct {
 	WriterAnnounce  bool          // model RWMutex writer preference (pending writer blocks new readers)
 	StepHorizon     int           // abort an execution after this many scheduling steps
 	SelectChoice    bool          // choosing a later ready select arm is offered as a deviation
+	FreeTimers      bool          // a short timer firing early costs no deviation (programs about time-outs)
 }
 
 var Opt = Options{LongTimer: time.Second, StepHorizon: 200000, TimerDeviations: true, SelectChoice: true}
